@@ -73,10 +73,15 @@ KINDS = {
     "app": ("com.myapp.error1", True, False),
     "app2": ("com.myapp.err_2.x", True, False),
     "appsub": ("com.myapp.appsub", True, False),
+    # an ApplicationError subclass whose CLASS the callee has also define()d under a (more general) URI:
+    # the instance still travels with the URI it carries
+    "appsub_def": ("com.myapp.appdef.out_of_stock", True, False),
     # decorated / explicitly defined classes
     "dec_args": ("com.myapp.dec_args", False, True),
     "dec_kw": ("com.myapp.dec_kw", True, True),
     "dec_sub": ("com.myapp.dec_sub", True, True),
+    # a registered class that derives from TypeError (also run behind check_types=True)
+    "dec_type": ("com.myapp.dec_type", True, True),
     "expl_args": ("com.myapp.expl_args", False, True),
     "expl_kw": ("com.myapp.expl_kw", True, True),
     # application classes for URIs every session pre-maps to library classes
@@ -85,12 +90,14 @@ KINDS = {
     # never registered
     "undef_runtime": (None, False, False),
     "undef_keyerror": (None, False, False),
+    "undef_typeerror": (None, False, False),
     "undef_custom": (None, False, False),
     "undef_kw": (None, True, False),
     # not registered itself, but derived from a class the callee HAS registered
     "undef_subdef": (None, True, False),
 }
 # caller side registrations for the wire URI
+APPKINDS = ("app", "app2", "appsub", "appsub_def")
 RDEFS = ("none", "same", "redef", "fixed2", "noargs", "raises", "kwonly", "falsy")
 
 
@@ -117,7 +124,7 @@ def expected_wire(case):
         kwargs[extra] = "v-" + extra
     if not has_kw:
         kwargs = {}
-    if kind in ("app", "app2", "appsub"):
+    if kind in APPKINDS:
         # names ApplicationError's constructor reserves for message details (ASSUMPTIONS)
         kwargs = {k: v for k, v in kwargs.items() if k not in RESERVED}
     if uri is None or (needs_def and not case["cdef"]):
@@ -167,6 +174,16 @@ def enumerate_cases(tier):
             c = {"exc": kind, "cdef": needs_def, "rdef": rdef, "payload": 4 if has_kw else 1, "ue": "raises"}
             if applicable(c):
                 out.append(c)
+    # the procedure is registered with check_types=True (the type checking wrapper sits between the
+    # procedure and the dealer side of the session)
+    for kind in ("app", "appsub_def", "dec_kw", "dec_type", "undef_runtime", "undef_typeerror", "undef_kw"):
+        uri, has_kw, needs_def = KINDS[kind]
+        for cdef in ((True, False) if needs_def else (False,)):
+            for rdef in ("none", "same"):
+                for p in (1, 4):
+                    c = {"exc": kind, "cdef": cdef, "rdef": rdef, "payload": p, "ct": True}
+                    if applicable(c):
+                        out.append(c)
     # payload that no serializer can carry
     for rdef in ("none",):
         out.append({"exc": "undef_custom", "cdef": False, "rdef": rdef, "payload": 0,
@@ -201,7 +218,7 @@ def main(ctx):
               "traceback_forwarded", "kwargs_carried", "mode:sync", "mode:future", "mode:late",
               "mode:coro", "mode:interrupt", "ser:json", "ser:msgpack", "ser:cbor", "ser:ubjson",
               "unserializable_reported", "redefined_class_surfaced",
-              "premapped_uri_class_surfaced"):
+              "premapped_uri_class_surfaced", "behind_check_types", "carried_uri_of_defined_class"):
         ctx.require(n)
 
 
@@ -261,6 +278,17 @@ def classes():
         def __init__(self, *args, **kwargs):
             ApplicationError.__init__(self, "com.myapp.appsub", *args, **kwargs)
 
+    class AppDef(ApplicationError):
+        def __init__(self, *args, **kwargs):
+            ApplicationError.__init__(self, "com.myapp.appdef.out_of_stock", *args, **kwargs)
+
+    @wamp.error("com.myapp.dec_type")
+    class DecType(TypeError):
+        def __init__(self, *args, **kwargs):
+            TypeError.__init__(self, *args)
+            self.kwargs = kwargs
+            self.init = (args, kwargs)
+
     class AppLike(ApplicationError):
         """caller side class for a plain ApplicationError URI"""
         def __init__(self, *args, **kwargs):
@@ -304,6 +332,7 @@ def classes():
 
     _CLS.update(dict(DecArgs=DecArgs, DecKw=DecKw, DecSub=DecSub, DecBase=DecBase,
                      ExplArgs=ExplArgs, ExplKw=ExplKw, AppSub=AppSub, AppLike=AppLike,
+                     AppDef=AppDef, DecType=DecType,
                      UndefCustom=UndefCustom, UndefKw=UndefKw, UndefSubDef=UndefSubDef, RtKw=RtKw, Fixed2=Fixed2,
                      NoArgs=NoArgs, Raises=Raises, KwOnly=KwOnly, Falsy=Falsy,
                      DecInvalid=DecInvalid, ExplExceeded=ExplExceeded, Old=Old,
@@ -313,9 +342,10 @@ def classes():
 
 KIND_CLASS = {"dec_args": "DecArgs", "dec_kw": "DecKw", "dec_sub": "DecSub",
               "expl_args": "ExplArgs", "expl_kw": "ExplKw", "appsub": "AppSub",
+              "appsub_def": "AppDef", "dec_type": "DecType",
               "undef_custom": "UndefCustom", "undef_kw": "UndefKw", "undef_subdef": "UndefSubDef",
               "dec_invalid": "DecInvalid", "expl_exceeded": "ExplExceeded"}
-DECORATED = ("dec_args", "dec_kw", "dec_sub", "dec_invalid")
+DECORATED = ("dec_args", "dec_kw", "dec_sub", "dec_invalid", "dec_type")
 EXPLICIT = ("expl_args", "expl_kw", "expl_exceeded")
 
 
@@ -340,6 +370,8 @@ def build_exception(case):
         return RuntimeError(*args)
     if kind == "undef_keyerror":
         return KeyError(*args)
+    if kind == "undef_typeerror":
+        return TypeError(*args)
     cls = C[KIND_CLASS[kind]]
     if has_kw:
         return cls(*args, **kwargs)
@@ -351,6 +383,8 @@ def setup_registries(case, callee, caller, wire_uri_expected):
     C = classes()
     kind = case["exc"]
     uri, has_kw, needs_def = KINDS[kind]
+    if kind == "appsub_def":
+        callee.define(C["AppDef"], "com.myapp.appdef")    # the class is registered; instances carry their own URI
     if kind == "undef_subdef":
         callee.define(C["DecKw"])            # the base class is registered, the raised class is not
     if kind == "dec_sub" and case["cdef"]:
@@ -378,7 +412,7 @@ def setup_registries(case, callee, caller, wire_uri_expected):
             cls, reg_uri, deco = C[KIND_CLASS[kind]], uri, False
         elif kind == "appsub":
             cls, reg_uri, deco = C["AppSub"], uri, False
-        elif kind in ("app", "app2"):
+        elif kind in ("app", "app2", "appsub_def"):
             cls, reg_uri, deco = C["AppLike"], uri, False
         else:
             # unregistered classes arrive under the generic URI: a class for that URI
@@ -457,7 +491,10 @@ def run_case(case, mode, tb, ser):
     else:
         raise ValueError(mode)
 
-    r = b.do(callee.register(proc, "com.myapp.proc"))
+    if case.get("ct"):
+        r = b.do(callee.register(proc, "com.myapp.proc", check_types=True))
+    else:
+        r = b.do(callee.register(proc, "com.myapp.proc"))
     if not r or r[0][0] != "ok":
         raise RuntimeError("register failed: %r" % (r,))
     box = b.do(caller.call("com.myapp.proc", 7, x=8))
@@ -577,6 +614,8 @@ def run_case(case, mode, tb, ser):
 
 
 FAMILY = {"app": "apperror", "app2": "apperror", "appsub": "apperror-subclass",
+          "appsub_def": "apperror-subclass-also-defined", "dec_type": "decorated-typeerror",
+          "undef_typeerror": "undefined",
           "dec_args": "decorated", "dec_kw": "decorated", "dec_sub": "decorated-subclass",
           "expl_args": "explicit", "expl_kw": "explicit", "dec_invalid": "decorated-premapped-uri",
           "expl_exceeded": "explicit-premapped-uri", "undef_runtime": "undefined",
@@ -594,6 +633,8 @@ def shape(case):
         s += "+unserializable"
     if case.get("ue"):
         s += "+onUserError-raises"
+    if case.get("ct"):
+        s += "+check_types"
     needs_def = KINDS[case["exc"]][2]
     d = ("callee-def" if case["cdef"] else "callee-undef") if needs_def else "callee-n/a"
     d += "|caller:" + case["rdef"]
@@ -624,13 +665,17 @@ def job(a):
             stats["ser:" + s] += 1
         if obs["wire"]:
             stats["error_on_wire"] += 1
+            if case.get("ct"):
+                stats["behind_check_types"] = stats.get("behind_check_types", 0) + 1
             u = obs["wire"][0]
             if case.get("unserializable"):
                 stats["unserializable_reported"] += 1
             elif u == RUNTIME:
                 stats["runtime_error_uri"] += 1
-            elif case["exc"] in ("app", "app2", "appsub"):
+            elif case["exc"] in APPKINDS:
                 stats["carried_uri"] += 1
+                if case["exc"] == "appsub_def":
+                    stats["carried_uri_of_defined_class"] = stats.get("carried_uri_of_defined_class", 0) + 1
             else:
                 stats["registered_uri"] += 1
             if tb and "traceback" in obs["wire"][2]:
